@@ -245,9 +245,17 @@ impl Router {
             Event::NewAlert(tx) => self.handle_new_alert(tx),
             Event::DeviceData => self.handle_device_payload(id),
             Event::Disconnect => self.handle_disconnection(id, None),
-            Event::Ready => self.scheduler.reschedule(id, ScheduleReason::Ready),
+            // Links can outlive their connection (the router may have closed it already):
+            // ignore their late signals like `DeviceData` and `Disconnect` do
+            Event::Ready => {
+                if self.scheduler.trackers.contains(id) {
+                    self.scheduler.reschedule(id, ScheduleReason::Ready)
+                }
+            }
             Event::Shadow(request) => {
-                retrieve_shadow(&mut self.datalog, &mut self.obufs[id], request)
+                if let Some(outgoing) = self.obufs.get_mut(id) {
+                    retrieve_shadow(&mut self.datalog, outgoing, request)
+                }
             }
             Event::SendAlerts => {
                 self.send_alerts();
